@@ -47,8 +47,45 @@ SOLVES = ["A", "A2", "B", "C", "D", "E", "G", "H", "J"]
 OPS = ["A", "A2", "B", "C", "D", "E", "G", "H", "J", "T1", "T2", "T4", "T8", "R", "F"]
 
 
+TWINS = ["source-values", "source-shape", "z", "u", "v", "Kx", "Ky", "Kz", "domain-x", "domain-y", "levels-other", "levels-duplicate", "levels-order",
+         "modes", "meas-x", "meas-y", "background", "mode-flag", "analytic", "halo-other", "halo-default", "precision"]
+
+
+def twin_args(base, twin):
+    """the argument set of solve `base` with EXACTLY ONE argument changed"""
+    kw = solve_args(base)
+    u, v, Kx, Ky, Kz = kw["profiles"]
+    q = kw["srf_flx"]
+    lv = kw["levels"]
+    lvl = [lv] if np.ndim(lv) == 0 else list(lv)
+    mp = kw.get("meas_pt", (0.0, 0.0))
+    ch = {
+        "source-values": dict(srf_flx=q * 1.5 + 0.25),
+        "source-shape": dict(srf_flx=np.full((q.shape[0] + 2, q.shape[1] + 2), 0.5)),
+        "z": dict(z=kw["z"] * 1.2),
+        "u": dict(profiles=(u * 1.1, v, Kx, Ky, Kz)), "v": dict(profiles=(u, v * 1.1, Kx, Ky, Kz)),
+        "Kx": dict(profiles=(u, v, Kx * 1.2, Ky, Kz)), "Ky": dict(profiles=(u, v, Kx, Ky * 1.2, Kz)), "Kz": dict(profiles=(u, v, Kx, Ky, Kz * 1.2)),
+        "domain-x": dict(domain=(kw["domain"][0] * 1.5, kw["domain"][1])), "domain-y": dict(domain=(kw["domain"][0], kw["domain"][1] * 1.5)),
+        "levels-other": dict(levels=[max(l - 1, 0) for l in lvl] if np.ndim(lv) else max(lv - 1, 0)),
+        "levels-duplicate": dict(levels=lvl + [lvl[0]]),
+        "levels-order": dict(levels=lvl[::-1] + [3] if len(lvl) == 1 else lvl[::-1]),
+        "modes": dict(modes=(4, 4)),
+        "meas-x": dict(meas_pt=(mp[0] + 10.0, mp[1])), "meas-y": dict(meas_pt=(mp[0], mp[1] + 15.0)),
+        "background": dict(srf_bg_conc=kw.get("srf_bg_conc", 0.0) + 3.0),
+        "mode-flag": dict(footprint=not kw.get("footprint", False)),
+        "analytic": dict(analytic=not kw.get("analytic", False)),
+        "halo-other": dict(halo=(kw.get("halo") or 0.0) + 17.0),
+        "halo-default": dict(halo=None if kw.get("halo") is not None else 41.0),
+        "precision": dict(precision="single" if kw["precision"] == "double" else "double"),
+    }[twin]
+    kw.update(ch)
+    return kw
+
+
 def solve_args(name):
     """fresh argument set for solve `name` (new arrays every time)"""
+    if "~" in name:
+        return twin_args(*name.split("~"))
     rng = np.random.default_rng(12345)
     qA, qB, qC = rng.standard_normal((6, 8)), rng.standard_normal((6, 8)) + 2.0, rng.random((12, 16))
     if name == "A":
@@ -80,7 +117,7 @@ def solve_args(name):
         return dict(srf_flx=qB, z=z, profiles=prof, domain=(80.0, 90.0), levels=[4, 1], modes=(8, 6), halo=13.0, meas_pt=(30.0, 45.0), footprint=True, precision="double")
     if name == "G":  # same mode count, domain and halo as E on ANOTHER grid (10x8): collides with E on anything keyed without the grid
         z, prof = sl.build_profiles("most_aniso", 4)
-        return dict(srf_flx=np.zeros((8, 10)), z=z, profiles=prof, domain=(80.0, 90.0), levels=[4, 1, 3], modes=(8, 6), halo=13.0, meas_pt=(30.0, 45.0), footprint=True, precision="double")
+        return dict(srf_flx=np.zeros((8, 10)), z=z, profiles=prof, domain=(80.0, 90.0), levels=[4, 1], modes=(8, 6), halo=13.0, meas_pt=(30.0, 45.0), footprint=True, precision="double")
     raise ValueError(name)
 
 
@@ -285,7 +322,7 @@ def case_history(case):
     st = global_state()
     st["wisdom_env"] = bool(case.get("wisdom"))
     key = hashlib.sha256(core.canon(st).encode()).hexdigest()[:20]
-    nsolves = sum(1 for o in hist if o in SOLVES)
+    nsolves = sum(1 for o in hist if o in SOLVES or "~" in o)
     return {"v": v[:6], "nt": nsolves > 0 and len(hist) > 1, "n": max(nsolves, 1), "state": key, "state_detail": st, "obs": {"state": key, "solves": nsolves}}
 
 
@@ -326,6 +363,21 @@ def run(ctx):
         maxdepth_done = d
         if not frontier:
             break
+    # one-argument-deviation pairs: for every base solve X and every argument a, the histories [X~a, X] and [X, X~a]
+    # (X~a = X with ONLY argument a changed), each in a pristine child: whatever the library remembers about a solve,
+    # if the memory is keyed without argument a the second solve of one of the two histories comes out wrong
+    bases = ("A", "E") if ctx.tier == "quick" else ("A", "C", "E", "D")
+    tw = ["%s~%s" % (b, t) for b in bases for t in TWINS]
+    core.run_forked(ctx, case_reference, [{"solve": n_, "path": os.path.join(refdir, n_ + ".npz")} for n_ in tw], sub="reference")
+    pairs = []
+    for n_ in tw:
+        b_ = n_.split("~")[0]
+        pairs += [{"history": [n_, b_], "wisdom": False, "refdir": refdir}, {"history": [b_, n_], "wisdom": False, "refdir": refdir}]
+    pr = core.run_forked(ctx, case_history, pairs, sub="one-argument-pairs")
+    hist_count += len(pairs)
+    transitions += 2 * len(pairs)
+    for c, r in zip(pairs, pr):
+        seen.setdefault(r["state"], (c, r["state_detail"]))
     nodedup = None
     if ctx.tier != "quick":
         # validate the canonicalisation: complete depth-3 product WITHOUT deduplication from the no-wisdom root
@@ -346,6 +398,8 @@ def run(ctx):
         "frontier_empty": not frontier,
         "per_depth": per_depth,
         "alphabet": list(OPS),
+        "one_argument_pairs": len(pairs),
+        "one_argument_twins": TWINS,
         "no_dedup_validation": nodedup,
         "state_key": "thread settings (bldfm.config, FFT manager, pyfftw, numba) + kernel-dictionary keys + FFTW plan-cache keys + digest of every non-callable module-level object / closure cell of bldfm.* + wisdom environment",
     })
